@@ -384,7 +384,81 @@ def run_declarations(seed, res):
                         res.violation("C11/declared/lockable-refused", f"{ty.name} value refused in a bank with has_lock={has_lock}", wit)
                 except Exception as e:
                     res.violation("C11/declared/lockability-wrong-exception", f"raised {type(e).__name__}", wit)
-    res.sample({"declared": "MASK/TMASK patterns for widths 1..4 signed/unsigned, overlaps, lockability per bank kind"})
+    # a value derived from a concrete declared value, with another width: its patterns are its own
+    for (w1, w2) in ((2, 4), (4, 1), (1, 3), (3, 2)):
+        bank = loc.MemoryBank(150, 0xFE)
+        parent = declare(bank, loc.NumericValue, 0x10, w1, mask_supported=True, tmask_supported=True)
+        child = type("Derived", (parent,), {"bank": bank, "locations": loc.MemoryRange(0x40, 0x40 + w2 - 1, type_=T.ROM)})
+        res.evaluations += 1
+        res.hit("declared_derived")
+        top = (1 << (8 * w2)) - 1
+        if bytes(child.mask) != top.to_bytes(w2, "big") or bytes(child.tmask) != (top - 1).to_bytes(w2, "big"):
+            res.violation("C11/declared/derived-mask-pattern", f"a {w2}-byte value derived from a {w1}-byte value has MASK {bytes(child.mask).hex()} / "
+                          f"TMASK {bytes(child.tmask).hex()}", {"parent_width": w1, "width": w2})
+            continue
+        for raw, want in ((top.to_bytes(w2, "big"), "MASK"), ((top - 1).to_bytes(w2, "big"), "TMASK"), ((top - 2).to_bytes(w2, "big"), top - 2)):
+            flag = child.check_raw(raw)
+            got = flag.value if flag is not None else child.raw_to_value(raw)
+            if got != want:
+                res.violation("C11/declared/derived-decode", f"{w2}-byte value derived from a {w1}-byte one, raw {raw.hex()}: {got!r}, expected {want!r}",
+                              {"parent_width": w1, "width": w2})
+    # locations in the order the value's bytes are stored in, not necessarily ascending or contiguous
+    for order in ((0x21, 0x20), (0x30, 0x34), (0x45, 0x44, 0x43), (0x50, 0x52, 0x51), (0x08, 0x0C), (0x60, 0x61)):
+        bank = loc.MemoryBank(160, 0xFE)
+        n[0] += 1
+        cls = type(f"Scattered{n[0]}", (loc.NumericValue,), {"bank": bank, "tmask_supported": True,
+                                                             "locations": tuple(loc.MemoryLocation(a, type_=T.ROM) for a in order)})
+        w = len(order)
+        for v in {0, 1, 0x1234 % (1 << (8 * w)), (1 << (8 * w)) - 2, (1 << (8 * w)) - 3, r.getrandbits(8 * w)}:
+            raw = v.to_bytes(w, "big")
+            image = [0xEE] * 255
+            for a, b in zip(order, raw):
+                image[a] = b
+            res.evaluations += 1
+            res.hit("declared_scattered")
+            want = "TMASK" if v == (1 << (8 * w)) - 2 else v
+            try:
+                got = cls.from_list(image)
+                got = got.value if hasattr(got, "value") and not isinstance(got, int) else got
+            except Exception as e:
+                got = f"raised {type(e).__name__}"
+            if got != want:
+                res.violation("C11/declared/scattered-from-list", f"value declared at locations {[hex(a) for a in order]} holding {raw.hex()}: "
+                              f"from_list gives {got!r}, the bytes in declaration order give {want!r}", {"order": list(order), "raw": raw.hex()})
+                break
+        # a bank list that stops before the value's last (highest) location
+        short = [0x11] * max(order)
+        try:
+            cls.from_list(short)
+            res.violation("C11/declared/scattered-truncated", f"value at {[hex(a) for a in order]}: a list of {len(short)} locations was decoded", {"order": list(order)})
+        except Exception as e:
+            if type(e).__name__ != "MemoryLocationNotImplemented":
+                res.violation("C11/declared/scattered-truncated", f"truncated list raised {type(e).__name__}", {"order": list(order)})
+    # interpretation is attempted only on bytes that passed the checks (the documented contract of raw_to_value)
+    bank = loc.MemoryBank(170, 0xFE)
+    table = {1: "low", 2: "medium", 3: "high"}
+    Looked = type("Looked", (loc.NumericValue,), {
+        "bank": bank, "locations": loc.MemoryRange(0x10, 0x10, type_=T.ROM), "mask_supported": True,
+        "is_valid": classmethod(lambda c, raw: raw[0] in table),
+        "raw_to_value": classmethod(lambda c, raw: table[raw[0]])})
+    Ratio = type("Ratio", (loc.NumericValue,), {
+        "bank": bank, "locations": loc.MemoryRange(0x20, 0x21, type_=T.ROM), "tmask_supported": True,
+        "is_valid": classmethod(lambda c, raw: int.from_bytes(raw, "big") >= 1),
+        "raw_to_value": classmethod(lambda c, raw: 1000000 // int.from_bytes(raw, "big"))})
+    for cls, raws in ((Looked, [b"\x01", b"\x03", b"\x00", b"\x07", b"\xff"]), (Ratio, [b"\x00\x01", b"\x00\x00", b"\xff\xfe", b"\x03\xe8"])):
+        for raw in raws:
+            image = [0] * 255
+            for lc, b in zip(cls.locations, raw):
+                image[lc.address] = b
+            res.evaluations += 1
+            res.hit("declared_partial_decoders")
+            try:
+                got = cls.from_list(image)
+            except Exception as e:
+                res.violation("C11/declared/decoder-called-on-flagged-bytes", f"{cls.__name__} raw {raw.hex()}: from_list raised {type(e).__name__} "
+                              "- the value's own decoder was run on bytes its checks reject", {"cls": cls.__name__, "raw": raw.hex()})
+    res.sample({"declared": "MASK/TMASK patterns for widths 1..4 signed/unsigned, overlaps, lockability per bank kind, derived / scattered / "
+                            "partial-decoder values"})
 
 
 def run_shard(desc, tier, seed):
